@@ -87,7 +87,7 @@ type SV struct {
 	Fields map[string]*SV // local struct value built from a composite literal
 }
 
-func numSV(l Lin) *SV        { return &SV{K: 'n', L: l} }
+func numSV(l Lin) *SV                  { return &SV{K: 'n', L: l} }
 func refSV(p string, t types.Type) *SV { return &SV{K: 'r', Path: p, T: t} }
 
 // Canon renders a value for use inside atoms.
@@ -121,6 +121,7 @@ type symFn struct {
 	lit  *ast.FuncLit
 	env  *symEnv
 	obj  *types.Func
+	recv *SV // bound receiver of a method value
 }
 
 type symEnv struct {
@@ -196,15 +197,16 @@ func (s *BState) Total(sink string) Lin {
 
 // ByteInterp symbolically evaluates the hand-written codec of one package.
 type ByteInterp struct {
-	Info    *types.Info
-	Decl    func(*types.Func) *ast.FuncDecl
-	Assume  map[string]bool // canonical condition -> forced outcome
-	Opaque  map[string]bool // function names never inlined
+	Info       *types.Info
+	Decl       func(*types.Func) *ast.FuncDecl
+	Assume     map[string]bool // canonical condition -> forced outcome
+	derived    map[string]bool // outcomes implied by Assume for the negated form
+	Opaque     map[string]bool // function names never inlined
 	VarWriters map[string]bool // methods that write varlen(arg0) bytes (zig-zag varint writers)
 	VarLenFns  map[string]bool // functions returning the encoded length of a varint
-	Errs    []string
-	depth   int
-	counter int
+	Errs       []string
+	depth      int
+	counter    int
 	indexDepth int
 }
 
@@ -243,6 +245,9 @@ func (bi *ByteInterp) CallFunc(fn *types.Func, recv *SV, args []*SV, st *BState)
 }
 
 func (bi *ByteInterp) apply(f *symFn, recv *SV, args []*SV, st *BState) *SV {
+	if recv == nil && f.recv != nil {
+		recv = f.recv
+	}
 	bi.depth++
 	defer func() { bi.depth-- }()
 	if bi.depth > 40 {
@@ -354,6 +359,32 @@ func (bi *ByteInterp) stmts(list []ast.Stmt, env *symEnv, st *BState) (*SV, bool
 				elseList = e.List
 			case *ast.IfStmt:
 				elseList = []ast.Stmt{e}
+			}
+			// an assumption about `x != nil` also decides `x == nil` (and the reverse)
+			if _, ok := bi.Assume[c]; !ok {
+				var flipped string
+				switch {
+				case strings.HasSuffix(c, "==nil"):
+					flipped = strings.TrimSuffix(c, "==nil") + "!=nil"
+				case strings.HasSuffix(c, "!=nil"):
+					flipped = strings.TrimSuffix(c, "!=nil") + "==nil"
+				}
+				if v, has := bi.Assume[flipped]; has && flipped != "" {
+					if bi.derived == nil {
+						bi.derived = map[string]bool{}
+					}
+					bi.derived[c] = !v
+				}
+			}
+			if forced, ok := bi.derived[c]; ok {
+				branch := elseList
+				if forced {
+					branch = x.Body.List
+				}
+				if r, ret := bi.stmts(branch, env, st); ret {
+					return r, true
+				}
+				return bi.stmts(rest, env, st)
 			}
 			if forced, ok := bi.Assume[c]; ok {
 				branch := elseList
@@ -877,7 +908,15 @@ func (bi *ByteInterp) expr(e ast.Expr, env *symEnv, st *BState) *SV {
 			}
 			return refSV(key, sel.Type())
 		}
-		// qualified identifier or method value
+		// method value: a function bound to its receiver
+		if sel, ok := bi.Info.Selections[x]; ok && sel.Kind() == types.MethodVal {
+			if fn, isFn := sel.Obj().(*types.Func); isFn {
+				if decl := bi.Decl(fn); decl != nil {
+					return &SV{K: 'f', Fn: &symFn{decl: decl, obj: fn, recv: bi.expr(x.X, env, st)}, Path: fn.Name()}
+				}
+			}
+		}
+		// qualified identifier
 		if o := bi.Info.Uses[x.Sel]; o != nil {
 			return &SV{K: 'u', Path: "sym:" + o.Name(), T: o.Type()}
 		}
